@@ -696,3 +696,4 @@ RENAME_FUNCS = [(F, 'apply_sustain_control_changes')]
 EXPLANATION += (' Location-independent additions: RANK/rank-in-key (wherever (time, rank, obj) tuples are sorted), BRANCH/note-off-removes-one, ESC/quantized-definition presence-vs-value form; ranks written as numbers are read as the constants they fold to.')
 EXPLANATION += (' Round 6: ' + 'THRESHOLD/scenarios (the events produced for controller values 0, 63, 64, 65, 127, whatever produces them: guarded appends, a conditional expression, a helper function); BRANCH/restrike-paths (path-wise: no path keeps a note of the same pitch in the active list without ending it, under three scenarios).')
 EXPLANATION += (' Round 7: ' + 'BRANCH/note-off-removes-one also locates a removal by a field of the ending note.')
+EXPLANATION += (' Rounds 9-10: ' + 'PITFALL/dead-parameter on apply_sustain_control_changes; PAIR/end-total located as in C11.')
